@@ -245,6 +245,7 @@ void do_op2(const Pool &P, Priv &V, const BOp &op, Hash &h) {
         std::ostringstream &os = own ? V.os8 : local; if (own) { os.str(std::string()); os.clear(); }
         if (op.c % 3 == 0) os.imbue(std::locale(std::locale::classic(), new std::numpunct<char>()));      // the thread's own stream carries its own (non-classic) locale object
         ST::writef(os, "{}|{>10}|{x}|{}|{+}|{_*8}", s, t, op.c, 3.25, (int)op.b, op.a); os << s << ' ' << t; hstd(h, os.str());
+        if ((op.c >> 7) % 3 == 0) flaky_writef<char>(h, 1 + (int)(op.b % 4), (op.c >> 9) & 1, "{}|{>9}|{x}|{_*6}", s, op.c, op.b, op.a);      // a sink that fails once, in either exception mode
         std::istringstream is(std::string(t.c_str(), t.size()) + " tail"); if (op.c % 5 == 0) is.imbue(std::locale(std::locale::classic(), new std::numpunct<char>())); ST::string tok; int cnt = 0; while (is >> tok) { hs(h, tok); if (++cnt > 40) break; }
         break; }
     case 79: {      // iostream_wide
@@ -252,6 +253,7 @@ void do_op2(const Pool &P, Priv &V, const BOp &op, Hash &h) {
         std::wostringstream &os = own ? V.osw : local; if (own) { os.str(std::wstring()); os.clear(); }
         if (op.c % 3 == 0) os.imbue(std::locale(std::locale::classic(), new std::numpunct<wchar_t>()));
         ST::writef(os, "{}|{<10}|{}|{+}|{>7_.}", s, op.c, L"wide é", -(int)op.b, op.a); os << s; hstd(h, os.str());
+        if ((op.c >> 7) % 3 == 0) flaky_writef<wchar_t>(h, 1 + (int)(op.b % 4), (op.c >> 9) & 1, "{}|{<9}|{+}|{>7_.}", s, op.c, -(int)op.b, op.a);
         std::wistringstream is(std::wstring(cw.data(), cw.size()) + L" tail"); ST::string tok; int cnt = 0; while (is >> tok) { hs(h, tok); if (++cnt > 40) break; }
         std::basic_ostringstream<char32_t> o32; try { ST::writef(o32, "{}", op.c); h.u64(o32.str().size()); } catch (const std::exception &) { h.str("ios32"); }
         break; }
